@@ -5,7 +5,7 @@
 EXTENDS Url, Dialers, TraceLib
 
 V_Proc == 1..8
-V_Scheme == {"va", "vb", "vc"}
+V_Scheme == {"va", "Va", "vb"}       \* scheme names are compared as they are
 V_Dialer == 1..64
 
 TraceInit == TraceInitTL /\ Init
@@ -17,6 +17,8 @@ TRet   == IsEvent("Ret") /\ Return(Ev.p, Ev.got) /\ Consume
 TRace  == IsEvent("Race") /\ FALSE          \* a data race reported by the race detector is not a behaviour
 TLin   == HasEvent /\ Ev.op \in {"Call", "Ret"} /\ (\E p \in Proc : Lin(p)) /\ Silent
 
-TraceNext == TParse \/ TRaw \/ TCall \/ TRet \/ TRace \/ TLin
+(* while a dial is in progress other registry calls complete, and a dialer may dial through the registry itself *)
+TProgress == IsEvent("Progress") /\ Ev.returned /\ Ev.forward /\ UNCHANGED vars /\ Consume
+TraceNext == TProgress \/ TParse \/ TRaw \/ TCall \/ TRet \/ TRace \/ TLin
 TraceSpec == TraceInit /\ [][TraceNext]_<<vars, tvars>>
 =============================================================================
